@@ -33,3 +33,16 @@ Theorem generate_text_fast_eq s : generate_text_fast s = generate_text s.
 Proof.
   unfold generate_text_fast, generate_text. destruct (parse_text s) as [a| | | |]; reflexivity.
 Qed.
+
+(* what "tables were generated from this text" means, stage by stage: the link that lets every theorem about
+   parse_text, front and generate_tables be read as a theorem about the bytes of the grammar file *)
+Theorem generate_text_ok s b t : generate_text s = GOk b t <->
+  exists a, parse_text s = PAst a /\ front a = inr b /\ generate_tables (b_gi b) = inr t.
+Proof.
+  unfold generate_text. split.
+  - destruct (parse_text s) as [a| | | |]; try discriminate.
+    destruct (front a) as [e|b0] eqn:Ef; [discriminate|].
+    destruct (generate_tables (b_gi b0)) as [[l|]|t0] eqn:Eg; try discriminate.
+    intros H. inversion H; subst b0 t0. exists a. auto.
+  - intros (a & -> & -> & ->). reflexivity.
+Qed.
